@@ -248,17 +248,26 @@ class BSplines():
                 self._integrals[:] = dx
                 self._integrals[n:] = 0
             else:
-                self._integrals[d:-d] = dx
                 values = np.empty(d+2)
                 knots = np.linspace(xmin, xmin+dx*11, 12)
                 test_pt = xmin + 4*dx
                 span = nu_find_span(knots, 4, test_pt)
                 nu_basis_funs(knots, 4, test_pt, span, values)
 
-                for i in range(3):
-                    step = dx*(1 - sum(values[:3-i]))
-                    self._integrals[i] = step
-                    self._integrals[-i-1] = step
+                # cum[k] : integral of a cardinal spline over the first (or by
+                # symmetry the last) k cells of its support
+                cum = [sum(values[:k]) for k in range(d+1)]
+                for i in range(self.ncells + d):
+                    # cells of the support of spline i which are in the domain
+                    first = max(0, d-i)
+                    last = min(d+1, self.ncells+d-i)
+                    if first == 0:
+                        self._integrals[i] = dx*(1 - cum[d+1-last])
+                    elif last == d+1:
+                        self._integrals[i] = dx*(1 - cum[first])
+                    else:
+                        # cut by both boundaries (fewer than 3 cells)
+                        self._integrals[i] = dx*(cum[last] - cum[first])
         else:
             knots = np.array([self.knots[0], *self.knots, self.knots[-1]])
             values = np.empty(d+2)
